@@ -3,10 +3,10 @@ package main
 // Incremental SMT solver session over a pipe (z3 -in, or cvc5 --incremental).
 
 import (
-	"os"
 	"bufio"
 	"fmt"
 	"io"
+	"os"
 	"os/exec"
 	"strconv"
 	"strings"
